@@ -512,29 +512,72 @@ import uuid  # noqa: E402
 
 _ENUMS: dict = {}
 _DCS: dict = {}
-# registered types whose serializer is str() (jsonargparse/typing.py:385-412); a value is identified by str(value)
-REG = {"Rpath": pathlib.Path, "Rtd": datetime.timedelta, "Ruuid": uuid.UUID, "Rcomplex": complex}
+# the registered types of jsonargparse/typing.py (:385-468).  A value is identified by what PYTHON prints for it (repr(range),
+# str(timedelta / UUID / complex / Path), a plain decimal spelling of a Decimal, the base64 text of bytes computed with the
+# standard library) - never by jsonargparse's own serializers, which are what is being checked.
+import base64  # noqa: E402
+import decimal  # noqa: E402
+
+REG = {"Rpath": pathlib.Path, "Rpathlike": os.PathLike, "Rtd": datetime.timedelta, "Ruuid": uuid.UUID, "Rcomplex": complex, "Rrange": range,
+       "Rdec": decimal.Decimal, "Rbytes": bytes, "Rbytearray": bytearray}
+RESTRICTED = {"PositiveInt": "int", "NonNegativeInt": "int", "PositiveFloat": "float", "NonNegativeFloat": "float", "ClosedUnitInterval": "float",
+              "OpenUnitInterval": "float", "Email": "str"}
+
+
+def g_restricted(name):
+    import jsonargparse.typing as jt
+
+    return getattr(jt, name)
+
+
+def reg_id(v) -> str:
+    if isinstance(v, range):
+        return repr(v)
+    if isinstance(v, decimal.Decimal):
+        if v.is_finite() and v == v.to_integral_value():
+            return str(int(v)) if (v != 0 or not v.is_signed()) else "-0"
+        return format(v.normalize(), "f") if v.is_finite() else str(v)
+    if isinstance(v, (bytes, bytearray)):
+        return base64.b64encode(bytes(v)).decode()
+    return str(v)
 
 
 def g_reg(name: str, text: str):
     if name == "Rpath":
         return pathlib.Path(text)
     if name == "Rtd":
-        from jsonargparse.typing import timedelta_deserializer
-
-        return timedelta_deserializer(text)
+        m = re.fullmatch(r"(?:(-?\d+) days?, )?(\d+):(\d\d):(\d\d)(?:\.(\d{6}))?", text)
+        return datetime.timedelta(days=int(m[1] or 0), hours=int(m[2]), minutes=int(m[3]), seconds=int(m[4]), microseconds=int(m[5] or 0))
     if name == "Ruuid":
         return uuid.UUID(text)
+    if name == "Rrange":
+        return range(*[int(x) for x in text[len("range("):-1].split(",")])
+    if name == "Rdec":
+        return decimal.Decimal(text)
+    if name == "Rbytes":
+        return base64.b64decode(text)
+    if name == "Rbytearray":
+        return bytearray(base64.b64decode(text))
     return complex(text)
 
 
 def reg_name(v):
+    if isinstance(v, bool):
+        return None
     if isinstance(v, pathlib.PurePath):
         return "Rpath"
     if isinstance(v, datetime.timedelta):
         return "Rtd"
     if isinstance(v, uuid.UUID):
         return "Ruuid"
+    if isinstance(v, range):
+        return "Rrange"
+    if isinstance(v, decimal.Decimal):
+        return "Rdec"
+    if isinstance(v, bytearray):
+        return "Rbytearray"
+    if isinstance(v, bytes):
+        return "Rbytes"
     if isinstance(v, complex):
         return "Rcomplex"
     return None
@@ -633,6 +676,8 @@ def g_type(t):
         return g_dc(p)
     if c == "reg":
         return REG[p[0]]
+    if c == "restr":
+        return g_restricted(p[0])
     raise ValueError(f"unknown type term {t}")
 
 
@@ -650,6 +695,9 @@ def a_type(T):
     for name, cls in REG.items():
         if T is cls:
             return T_("reg", [name])
+    for name, base in RESTRICTED.items():
+        if T is g_restricted(name):
+            return T_("restr", [name, base])
     if isinstance(T, type) and issubclass(T, enum.Enum):
         return T_("enum", [syms(m) for m in T.__members__])
     if dataclasses.is_dataclass(T):
@@ -724,7 +772,7 @@ def a_value(v) -> dict:
     if isinstance(v, float):
         return a_float(v)
     if reg_name(v):
-        return {"k": "reg", "v": [reg_name(v)] + syms(str(v))}
+        return {"k": "reg", "v": [reg_name(v)] + syms(reg_id(v))}
     if isinstance(v, str):
         return {"k": "str", "v": syms(v)}
     if isinstance(v, list):
@@ -1113,6 +1161,8 @@ def show_type(t) -> str:
         return "dataclass(" + ",".join(f"{txt(n)}:{show_type(ft)}" for n, ft, _ in p) + ")"
     if c == "reg":
         return REG[p[0]].__name__
+    if c == "restr":
+        return p[0]
     if not p:
         return c
     return c + "[" + ",".join(show_type(m) for m in p) + "]"
@@ -1405,10 +1455,26 @@ def _strategies():
     simple_field_t = st.one_of(st.sampled_from([T_("str"), T_("int"), T_("float"), T_("bool")]), st.sampled_from([T_("str"), T_("int")]).map(lambda t: T_("union", [t, T_("none")])),
                                st.just(T_("list", [T_("int")])))
 
-    REG_TEXTS = {"Rpath": ["/x", "a/b", "None", "rel/file.txt", "1e3", "x y", "1:30"], "Rtd": ["0:00:01", "1:02:03", "23:59:59"],
-                 "Ruuid": ["12345678-1234-5678-1234-567812345678", "00000000-0000-0000-0000-000000000000"], "Rcomplex": ["(1+2j)", "3j", "(-4-5j)"]}
-    reg_t = st.sampled_from(sorted(REG)).map(lambda n: T_("reg", [n]))
+    REG_TEXTS = {
+        "Rpath": ["/x", "a/b", "None", "rel/file.txt", "1e3", "x y", "1:30"], "Rpathlike": ["/x", "a b", "rel/f.txt", "1:30", "yes"],
+        "Rtd": ["0:00:01", "1:02:03", "23:59:59", "1 day, 2:03:04", "1 day, 0:00:00", "-1 day, 23:59:59", "-1 day, 0:00:00", "2 days, 0:00:00", "-3 days, 12:00:00",
+                "400 days, 1:00:00", "0:00:01.500000", "1 day, 0:00:00.000001", "0:00:00"],
+        "Ruuid": ["12345678-1234-5678-1234-567812345678", "00000000-0000-0000-0000-000000000000"],
+        "Rcomplex": ["(1+2j)", "3j", "(-4-5j)", "0j", "(1.5-2j)", "1j"],
+        "Rrange": ["range(5)", "range(2, 5)", "range(0, 10, 2)", "range(0, 10, 3)", "range(1, 10, 3)", "range(10, 0, -2)", "range(0, -5, -1)", "range(0)", "range(5, 1)",
+                   "range(0, 5, 1)", "range(-3,3)", "range( 1 , 4 )", "range(0, 0, 7)", "range(3, 3)", "range(-2)", "range(7, 8, 100)"],
+        "Rdec": ["0.5", "3", "-2.25", "0.1", "100", "1.125", "-7", "0.3", "12345.678"],
+        "Rbytes": ["aGk=", "", "AAEC", "/+8=", "aGVsbG8gd29ybGQ="], "Rbytearray": ["aGk=", "", "AAEC", "/w=="]}
+    RESTR_VALUES = {"PositiveInt": [V_("int", "1"), V_("int", "7"), V_("int", "123456")], "NonNegativeInt": [V_("int", "0"), V_("int", "5")],
+                    "PositiveFloat": [a_float(0.5), a_float(1e16), a_float(3.0), a_float(float("inf"))], "NonNegativeFloat": [a_float(0.0), a_float(2.5), V_("int", "2")],
+                    "ClosedUnitInterval": [a_float(0.0), a_float(1.0), a_float(0.25), a_float(1e-07)], "OpenUnitInterval": [a_float(0.5), a_float(1e-07)],
+                    "Email": [V_("str", "a@b.co"), V_("str", "x.y+z@example.org")]}
+    restr_t = st.sampled_from(sorted(RESTRICTED)).map(lambda n: T_("restr", [n, RESTRICTED[n]]))
+    reg_t = st.one_of(st.sampled_from(sorted(REG)).map(lambda n: T_("reg", [n])), st.sampled_from(["Rrange", "Rtd", "Rdec"]).map(lambda n: T_("reg", [n])), restr_t)
     reg_shapes = reg_t.flatmap(lambda r: st.sampled_from([
+        r, r, T_("dict", [T_("str"), r]), T_("tuple", [r, T_("int")]),
+        T_("list", [T_("dc", [[syms("r"), r, dict(NULLREC)], [syms("n"), T_("int"), V_("int", "1")]])]),
+        T_("union", [T_("dc", [[syms("r"), T_("union", [r, T_("none")]), dict(NULLREC)]]), T_("none")]),
         T_("list", [T_("union", [r, T_("none")])]), T_("dict", [T_("str"), T_("union", [r, T_("none")])]), T_("tuple", [T_("union", [r, T_("none")]), T_("int")]),
         T_("union", [r, T_("none")]), T_("list", [r]), T_("tuplee", [T_("union", [r, T_("none")])]), T_("list", [T_("list", [T_("union", [r, T_("none")])])]),
         T_("dict", [T_("str"), T_("list", [T_("union", [r, T_("none")])])])]))
@@ -1431,7 +1497,7 @@ def _strategies():
     types = st.recursive(leaf_t, extend, max_leaves=6)
 
     def depth(t):
-        if t["c"] == "reg":
+        if t["c"] in ("reg", "restr"):
             return 0
         if t["c"] == "dc":
             return 1 + max([depth(f[1]) for f in t["p"]] + [0])
@@ -1457,7 +1523,12 @@ def _strategies():
         if c == "none":
             return st.just(dict(NULLREC))
         if c == "reg":
-            return st.sampled_from(REG_TEXTS[p[0]]).map(lambda s: V_("str", s))
+            texts = st.sampled_from(REG_TEXTS[p[0]]).map(lambda s: V_("str", s))
+            if p[0] == "Rdec":
+                return st.one_of(texts, st.sampled_from([a_float(0.5), V_("int", "3"), a_float(2.0), a_float(0.1)]))
+            return texts
+        if c == "restr":
+            return st.sampled_from(RESTR_VALUES[p[0]])
         if c == "enum":
             return st.sampled_from(p).map(lambda n: {"k": "str", "v": n})
         if c == "literal":
